@@ -1,7 +1,7 @@
 (* Proofs/OpsFacts.v — every gene an operator produces lies in the box, for every random draw (C01, concrete layer).
    NaN is excluded explicitly (a NaN arises only from a non-finite draw or an overflowing range, outside the property's domain). *)
 From Coq Require Import ZArith Bool List Lia.
-From HV Require Import F64 Bounds F64Facts BoundsFacts Ops.
+From HV Require Import F64 Bounds F64Facts BoundsFacts Ops ScaleFacts.
 Import ListNotations.
 
 Theorem gauss_gene_in_box x delta lo hi : fle lo hi = true -> fis_nan (gauss_gene x delta lo hi) = false -> in_box1 (gauss_gene x delta lo hi) lo hi = true.
@@ -24,4 +24,14 @@ Theorem gauss_vec_in_box xs : forall deltas box, length xs = length box -> lengt
 Proof.
   unfold gauss_vec. induction xs as [|x xs IH]; intros [|d ds] [|[lo hi] box] L1 L2 Fb Fn; simpl in *; try discriminate; auto.
   inversion Fb; subst. inversion Fn; subst. simpl in *. rewrite gauss_gene_in_box by assumption. simpl. apply IH; auto.
+Qed.
+
+(* LHS / Sobol scaling: for a box on which the largest sample below 1 lands inside (decidable, evaluated per box), EVERY sample in
+   [0, 1) lands inside — monotonicity of rounding (ScaleFacts.scale_in_box) *)
+Theorem scale_gene_in_box lo hi s : scale_ok lo hi = true -> fis_finite s = true -> fle (fzero false) s = true -> fle s pred_one = true ->
+  in_box1 (scale_gene lo hi s) lo hi = true.
+Proof.
+  unfold scale_ok, scale_gene, fis_finite. intros H Fs H0 H1. repeat (apply andb_prop in H as (H & ?)).
+  destruct (scale_in_box lo hi s pred_one) as (A & B & _); try assumption; try reflexivity.
+  unfold in_box1. now rewrite A, B.
 Qed.
